@@ -470,6 +470,14 @@ theorem Inv1.step {s : AState} (i : Inv1 s) (op : Op) (hop : OpOK s.key op) : In
     · split
       · exact i
       · apply Inv1.setW; apply Inv1.handleSpend; exact Inv1.setW i _
+  | consumeSpend pos =>
+    simp only [Pool.C08.step]
+    split
+    · exact i
+    · exact Inv1.setW i _
+  | spendH t h =>
+    simp only [Pool.C08.step]
+    apply Inv1.setW; exact Inv1.handleSpend i _ _
   | spendDirect k h =>
     simp only [Pool.C08.step]
     split
